@@ -14,7 +14,7 @@ import (
 
 // ---------------------------------------------------------------------------------- C12
 
-const ruleC12 = "model-based state machine with an id-centred mix: generated and supplied ids, duplicates inside a batch (also at position 1000+ of batches of 1001-2500 documents) and against stored ids, malformed ids (empty, short, long, non-hex, non-string), upper-case spellings, the same ids in two collections, Save with and without id, ReplaceById with a mismatching id, UpdateById/Update/UpdateFunc that set _id to a free, taken or malformed value. Oracle: model (fresh valid UUID for a missing id, supplied id kept, ErrDuplicateKey / error and no change), and after every step for every id ever used FindById(c,id) is nil or a document whose _id is id, scans and FindById agree, no unaddressed document changed (an update that rewrites _id may fail or re-key: validity predicate, then resync). An evaluation is one step; non-trivial when the step involves a colliding, malformed, generated or rewritten id; distinct = distinct (operation, model state)."
+const ruleC12 = "model-based state machine with an id-centred mix: generated and supplied ids, duplicates inside a batch (also at position 1000+ of batches of 1001-2500 documents) and against stored ids, malformed ids (empty, short, long, non-hex, non-string), upper-case spellings, the same ids in two collections, Save with and without id, ReplaceById with a mismatching id, UpdateById/Update/UpdateFunc that set _id to a free, taken or malformed value. Oracle: model (fresh valid UUID for a missing id, supplied id kept, ErrDuplicateKey / error and no change), and after every step for every id ever used FindById(c,id) is nil or a document whose _id is id, scans and FindById agree, no unaddressed document changed (an update that rewrites _id may fail or re-key: validity predicate, then resync). An evaluation is one step; non-trivial when the step involves a colliding, malformed, generated or rewritten id (including the upper-case spelling of the document's own id); distinct = distinct (operation, model state). A second part races 2-5 concurrent Inserts (single documents and batches) that carry the same _id, schedule perturbed at every store call: at most one may succeed, the others fail with ErrDuplicateKey (or a store conflict) leaving nothing behind, and documents, counter and index entries are consistent afterwards."
 
 func c12Profile() *sm.Profile {
 	return &sm.Profile{
@@ -22,7 +22,7 @@ func c12Profile() *sm.Profile {
 		Colls:       []string{"A", "B"},
 		IndexFields: []string{"x", "_id", "u"},
 		Doc:         gen.DocCfg{Val: gen.ValCfg{MaxDepth: 0}, PAbsent: 3, Fields: []string{"x", "y", "u"}},
-		IdPool:      10,
+		IdPool:      16,
 		MaxDocs:     8,
 		GenIds:      true,
 		BadIds:      true,
@@ -98,6 +98,37 @@ func opTouchesIds(op cs.Op) (bool, []string) {
 }
 
 func TestC12(t *testing.T) {
+	t.Run("race", func(t *testing.T) {
+		col := collector("C12", ruleC12)
+		check(t, "C12", cases(250, 6000), 0, func(rt *rapid.T) {
+			c := &c12RaceCase{Backend: rapid.SampledFrom(raceBackends).Draw(rt, "backend"), Index: rapid.Bool().Draw(rt, "index")}
+			for i := rapid.IntRange(2, 5).Draw(rt, "clients"); i > 0; i-- {
+				b := []int{}
+				for j := rapid.IntRange(1, 3).Draw(rt, "batchlen"); j > 0; j-- {
+					b = append(b, rapid.SampledFrom([]int{0, 0, 1, 2, 3}).Draw(rt, "idk"))
+				}
+				// no duplicate inside one batch (that is the sequential check's business)
+				seen := map[int]bool{}
+				nb := []int{}
+				for _, k := range b {
+					if !seen[k] {
+						seen[k] = true
+						nb = append(nb, k)
+					}
+				}
+				c.Batches = append(c.Batches, nb)
+			}
+			c.Bits = rapid.SliceOfN(rapid.Byte(), 8, 48).Draw(rt, "schedule-bits")
+			if f := runC12Race(c); f != nil {
+				violate(rt, "C12", "c12race", c, f)
+			}
+			col.Case(true, hashOf(c), func() interface{} { return c }, "id-race", "backend:"+c.Backend)
+		})
+	})
+	t.Run("histories", testC12Histories)
+}
+
+func testC12Histories(t *testing.T) {
 	(&smCheck{property: "C12", kind: "c12", rule: ruleC12, quick: 2500, thorough: 60000, stepsQ: 20, stepsT: 30,
 		backends: []string{run.Bbolt, run.Bbolt, run.BadgerMem},
 		profile:  func(rt *rapid.T) *sm.Profile { return c12Profile() },
@@ -114,9 +145,9 @@ func TestC12(t *testing.T) {
 
 // ---------------------------------------------------------------------------------- C13
 
-const ruleC13 = "model-based state machine over a name alphabet with prefix-related, dotted, colon, unicode and empty collection names, 2-5 live collections sharing the same ids, all operation kinds including indexes and drops. After every step: ListCollections (as a set) and HasCollection for every name of the alphabet equal the model, sentinel errors are exact, and every collection - in particular every one other than the operated one - has exactly the model's documents, index list and Count. An evaluation is one step; non-trivial when the operated collection has a live sibling whose name is prefix-related to it or that shares an id with it; distinct = distinct (operation, model state). A second part races 2-5 concurrent creators of one name (CreateCollection, CreateCollectionByQuery, ImportCollection; schedule perturbed at every store call): at most one may succeed, the others fail with ErrCollectionExist (or a store conflict) without side effects, and the full state (contents, counters, raw key audit) equals the winner's; every race counts as one non-trivial evaluation."
+const ruleC13 = "model-based state machine over a name alphabet with prefix-related, dotted, colon, unicode, empty and very long (520 / 801 bytes) collection names, 2-5 live collections sharing the same ids, all operation kinds including indexes and drops. After every step: ListCollections (as a set) and HasCollection for every name of the alphabet equal the model, sentinel errors are exact, and every collection - in particular every one other than the operated one - has exactly the model's documents, index list and Count. An evaluation is one step; non-trivial when the operated collection has a live sibling whose name is prefix-related to it or that shares an id with it; distinct = distinct (operation, model state). A second part races 2-5 concurrent creators of one name (CreateCollection, CreateCollectionByQuery, ImportCollection; schedule perturbed at every store call): at most one may succeed, the others fail with ErrCollectionExist (or a store conflict) without side effects, and the full state (contents, counters, raw key audit) equals the winner's; every race counts as one non-trivial evaluation."
 
-var c13Names = []string{"A", "B", "a", "ab", "a.b", "a:b", "c", "coll", "é", "", "a b", "c:a"}
+var c13Names = []string{"A", "B", "a", "ab", "a.b", "a:b", "c", "coll", "é", "", "a b", "c:a", strings.Repeat("L", 520), strings.Repeat("L", 800) + "x"}
 
 func c13Profile() *sm.Profile {
 	return &sm.Profile{
@@ -154,7 +185,7 @@ func TestC13(t *testing.T) {
 	t.Run("race", func(t *testing.T) {
 		col := collector("C13", ruleC13)
 		check(t, "C13", cases(250, 6000), 0, func(rt *rapid.T) {
-			c := &c13RaceCase{Backend: rapid.SampledFrom([]string{run.Bbolt, run.BadgerMem}).Draw(rt, "backend")}
+			c := &c13RaceCase{Backend: rapid.SampledFrom(raceBackends).Draw(rt, "backend")}
 			n := rapid.IntRange(1, 6).Draw(rt, "ndocs")
 			for i := 0; i < n; i++ {
 				c.Docs = append(c.Docs, cs.Doc{"_id": gen.Id(i), "x": int64(rapid.IntRange(0, 3).Draw(rt, "x")), "u": int64(i)})
